@@ -122,7 +122,7 @@ def oracle(sc):
 
 
 def oracle_entry(sc, arrays):
-    mach = fagen.mk_machine(sc)
+    mach = fagen.mk_machine(sc, enroll_iterations=1 + len(arrays[0]) % 4)  # the machine's own setting, 1..4: every entry point enrols with it
     marg = (sc["y"], sc["z"]) if sc["jfa"] else sc["z"]
     a = core.impl(lambda: float(mach.score_using_array(marg, arrays)))
     b = core.impl(lambda: float(mach.score(marg, [mach.ubm.acc_stats(d) for d in arrays])))
